@@ -370,7 +370,10 @@ def check_cow(repo, writer):
     # parameter roles (key / value) from the first direct store
     for m in writes:
         if m.kind == 'setitem' and m.depth == 0 and isinstance(m.stmt, ast.Assign):
-            t = m.stmt.targets[0]
+            subs = [t for t in m.stmt.targets if isinstance(t, ast.Subscript)]
+            if not subs:
+                continue
+            t = subs[0]
             writer.key_params = sorted(A.names_read(t.slice) & set(f.params))
             if isinstance(m.stmt.value, ast.Name):
                 writer.value_param = m.stmt.value.id
